@@ -2,10 +2,15 @@
 
 Permutation search over the real resolver.  A family is a multiset of 2-4
 overloads of `foo` in ONE layer whose 1-2 parameters are typed over the lattice
-Any > A > {B, C} > D (plus Lazy) such that every eager parameter accepts the
-value it is called with (simultaneously matching candidates; a lazy one in the
-family forces the laziness comparison).  For every family and call value the
-call is resolved under ALL n! enumeration orders, commanded in three ways:
+Any > A > {B, C} > D, X unrelated (plus Lazy) such that every eager parameter
+accepts the value it is called with (simultaneously matching candidates; a lazy
+one in the family forces the laziness comparison).  Values are instances of A,
+B, C, D, null, and e - an instance of a class below both D and X, so that a
+parameter pair (D-chain type, X) is neutral for specificity and "more specific"
+is not transitive inside the space.  Every call is spelled positionally, with
+the last argument by keyword and with all arguments by keyword (`foo(x => $v)`);
+for every family, call value and spelling the call is resolved under ALL n!
+enumeration orders, commanded in three ways:
 
   list     a Context subclass whose get_functions returns the overloads in the commanded order
   multi    a MultiContext subclass doing the same, for every split of the family over two members
@@ -13,8 +18,13 @@ call is resolved under ALL n! enumeration orders, commanded in three ways:
            commanded order: the real set then iterates in insertion order (asserted), so the
            registration order drives the real set-based code path
 
+Keyword spellings go through the commanded list, directly
+(`context(name, engine, receiver)(*args, **kwargs)`) and, for the small
+families, also as parsed text (`foo(pa(0), y => pb('y'))`).
+
 Oracle (differential): one outcome - payload tag + evaluation log + received
-arguments, or error class - per (family, call), whatever the order and driver.
+arguments, or error class - per (family, call spelling), whatever the order,
+driver and path.
 """
 import itertools
 
@@ -27,30 +37,34 @@ from yaql.language import contexts, specs
 
 ID = 'C06'
 TITLE = 'resolution is order independent'
-RULE = ('all (family, call value(s), function/method syntax) within the bound, each resolved under every permutation '
-        'of the enumeration order x {commanded list, every 2-member MultiContext split, registration order into the '
-        'real set}; a case is distinct by (signatures, values, syntax) and non-trivial when at least two candidates '
-        'survive the type filter (all of them, by construction, unless a lazy parameter makes the family ambiguous)')
+RULE = ('all (family, call value(s), function/method syntax, positional/keyword spelling) within the bound, each resolved '
+        'under every permutation of the enumeration order x {commanded list, every 2-member MultiContext split, '
+        'registration order into the real set; for keyword spellings: commanded list, direct and text}; a case is distinct by '
+        '(signatures, values, syntax, spelling) and non-trivial when at least two candidates survive the type filter '
+        '(all of them, by construction, unless a lazy parameter makes the family ambiguous)')
 ASSUMPTIONS = ['a CPython set whose elements all have the same hash iterates in insertion order (asserted on every use)',
                'every enumeration order of a layer can occur: the overload set is keyed by object identity (addresses)']
 BOUNDS = {
-    'quick': '1 parameter: multisets of 2-4 signatures, values a b c d null, function and method syntax; '
-             '2 parameters: multisets of 2-3 signatures for all 25 value pairs (function syntax; method syntax for 2); '
-             'all n! orders as commanded list and as registration order into the real set for every family, '
-             'all MultiContext splits for 1 parameter n <= 3 and 2 parameters n = 2',
-    'thorough': 'as quick plus MultiContext splits for every family of quick, method syntax for 2 parameters n = 3, and '
-                '2 parameters n = 4: all sets of 4 distinct eager signatures for the value pairs over {d, null}, multisets of 4 for (d, d) '
-                '(list and set drivers)',
+    'quick': '1 parameter: multisets of 2-4 signatures, values a b c d e null, function and method syntax; '
+             '2 parameters: multisets of 2-3 signatures for all 25 value pairs over a b c d null (function syntax; method syntax for 2) '
+             'and, eager signatures only, for the pairs (d,e) (e,d) (e,e) where the unrelated type X occurs; '
+             'positional spelling: all n! orders as commanded list and as registration order into the real set for every family, '
+             'all MultiContext splits for 1 parameter n <= 3 and 2 parameters n = 2 (not for the e pairs); '
+             'keyword spellings (last argument / all arguments by keyword): all n! orders as commanded list for every family, '
+             'also through text for n = 2 and for 1 parameter n = 3',
+    'thorough': 'as quick plus MultiContext splits for every family of quick, method syntax for 2 parameters n = 3, '
+                'all 11 value pairs containing e with lazy signatures, and 2 parameters n = 4: all sets of 4 distinct eager signatures '
+                'for the value pairs over {d, null}, multisets of 4 for (d, d) (list and set drivers, all spellings)',
 }
 
 LAT = R.LAT6
-ORDER = ['Any', 'A', 'B', 'C', 'D']
+ORDER = ['Any', 'A', 'B', 'C', 'D', 'X']
 VALUES = ['a', 'b', 'c', 'd', 'n']
 
 
 def types_for(v):
     if v == 'n':
-        return ORDER + ['Lazy']            # null: every nullable type accepts it
+        return ORDER[:5] + ['Lazy']        # null: every nullable type accepts it (X is kept for the value e)
     return [t for t in ORDER if LAT.accepts(t, False, v)] + ['Lazy']
 
 
@@ -64,10 +78,18 @@ def overload(i, sig, values):
     return ('t%d' % i, params, 'function' if sig[0] == 'Lazy' else 'ext', False)   # a method cannot start with a lazy parameter
 
 
-def call_for(values, method):
-    if method:
-        return (('val', values[0]), tuple(('var', v) for v in values[1:]), ())
-    return (None, tuple(('var', v) for v in values), ())
+def spellings(values, method):
+    """Which arguments travel by keyword: none, the last one, all of them."""
+    free = len(values) - (1 if method else 0)
+    return ['pos', 'mixed', 'kw'][:free + 1]
+
+
+def call_for(values, method, spelling='pos'):
+    recv = ('val', values[0]) if method else None
+    named = [(('x', 'y')[k], ('var', v)) for k, v in enumerate(values)][1 if method else 0:]
+    by_keyword = {'pos': 0, 'mixed': 1, 'kw': len(named)}[spelling]
+    cut = len(named) - by_keyword
+    return (recv, tuple(item for name, item in named[:cut]), tuple(named[cut:]))
 
 
 # ---------------------------------------------------------------------------
@@ -117,9 +139,9 @@ def base():
     return _state['base']
 
 
-def outcomes(sigs, values, method, drivers):
+def outcomes(sigs, values, method, drivers, spelling='pos'):
     """{(driver, detail, order): observation} for all orders of the family."""
-    call = call_for(values, method)
+    call = call_for(values, method, spelling)
     ovs = [overload(i, s, values) for i, s in enumerate(sigs)]
     fds = [R.definition(o, R.CLASSES6) for o in ovs]
     n = len(fds)
@@ -132,6 +154,8 @@ def outcomes(sigs, values, method, drivers):
         for p in perms:
             ctx.command = [fds[i] for i in p]
             out[('list', '', p)] = R.direct(ctx, call, R.VALUES6)
+            if 'text' in drivers:
+                out[('text', '', p)] = R.textual(ctx, call)
     if 'multi' in drivers:
         for split in itertools.product((0, 1), repeat=n):
             if len(set(split)) < 2:
@@ -164,14 +188,26 @@ def classes(observations):
     return ' / '.join(sorted(set(o[0][0] if o[0][0] == 'run' else o[0][1] for o in observations)))
 
 
+def drivers_for(sigs, values, drivers, spelling):
+    if spelling == 'pos':
+        return tuple(drivers)
+    small = len(sigs) == 2 or (len(values) == 1 and len(sigs) == 3)
+    return ('list', 'text') if small else ('list',)
+
+
 def judge(res, sigs, values, method, drivers):
-    res.case((sigs, values, method))
-    obs, layers, call = outcomes(sigs, values, method, drivers)
+    for spelling in spellings(values, method):
+        judge_spelling(res, sigs, values, method, drivers_for(sigs, values, drivers, spelling), spelling)
+
+
+def judge_spelling(res, sigs, values, method, drivers, spelling):
+    res.case((sigs, values, method, spelling))
+    obs, layers, call = outcomes(sigs, values, method, drivers, spelling)
     res.evaluations += len(obs)
     res.transitions += len(obs)
     res.nontrivial += 1
     distinct = sorted(set(obs.values()), key=repr)
-    res.outcomes['n=%d %s' % (len(sigs), classes(distinct))] += 1
+    res.outcomes['n=%d %s %s' % (len(sigs), 'positional' if spelling == 'pos' else 'keyword', classes(distinct))] += 1
     if len(distinct) == 1:
         return
     ovs = layers[0][1]
@@ -186,9 +222,12 @@ def judge(res, sigs, values, method, drivers):
     else:
         varying = sorted(d for d in drivers if len(set(o for k, o in obs.items() if k[0] == d)) > 1)
         where = 'every driver' if varying == sorted(drivers) else '+'.join(varying) or 'no single driver (the drivers disagree with each other)'
-        key = 'order-dependent outcome (not the single-pass pattern): %s; varies within %s' % (classes(distinct), where)
-    size = (len(sigs), len(values), method, sum(ORDER.index(t) if t in ORDER else 9 for sg in sigs for t in sg), values)
-    res.fail(key, {'signatures': sigs, 'values': values, 'method': method, 'drivers': sorted(drivers)},
+        key = 'order-dependent outcome (not the single-pass pattern): %s; %s arguments; varies within %s' % (
+            classes(distinct), 'positional' if spelling == 'pos' else 'keyword', where)
+    size = (len(sigs), len(values), method, spelling != 'pos',
+            sum(ORDER.index(t) if t in ORDER else 9 for sg in sigs for t in sg), values)
+    res.fail(key, {'signatures': sigs, 'values': values, 'method': method, 'spelling': spelling, 'drivers': sorted(drivers),
+                   'text': R.text_of(call)},
              'outcomes by order: %s; model (most specific of all matches): %r'
              % ('; '.join('%s <- %s' % (k, ' '.join(v[:8]) + (' ...' if len(v) > 8 else '')) for k, v in sorted(by.items())),
                 _expected(layers, call)[0]), size=size)
@@ -208,7 +247,7 @@ def families(tier):
     every = ('list', 'multi', 'set')
     plain = ('list', 'set')
     out = []
-    for v in VALUES:
+    for v in VALUES + ['e']:
         sigs = signatures((v,))
         for n in (2, 3, 4):
             for fam in itertools.combinations_with_replacement(sigs, n):
@@ -222,6 +261,14 @@ def families(tier):
                 out.append((fam, vs, False, every if n == 2 or thorough else plain))
                 if (n == 2 or thorough) and all(s[0] != 'Lazy' for s in fam):
                     out.append((fam, vs, True, every if n == 2 else plain))
+    with_e = [vs for vs in itertools.product(VALUES + ['e'], repeat=2) if 'e' in vs]
+    for vs in with_e if thorough else [('d', 'e'), ('e', 'd'), ('e', 'e')]:
+        sigs = signatures(vs, lazy=thorough)
+        for n in (2, 3):
+            for fam in itertools.combinations_with_replacement(sigs, n):
+                out.append((fam, vs, False, plain))
+                if n == 2 and thorough and all(s[0] != 'Lazy' for s in fam):
+                    out.append((fam, vs, True, plain))
     if thorough:
         for vs in itertools.product('dn', repeat=2):
             eager = signatures(vs, lazy=False)
@@ -254,7 +301,7 @@ def jobs(tier, seed):
 def replay(case):
     sigs = tuple(tuple(s) for s in case['signatures'])
     values = tuple(case['values'])
-    obs, layers, call = outcomes(sigs, values, case['method'], set(case['drivers']))
+    obs, layers, call = outcomes(sigs, values, case['method'], set(case['drivers']), case.get('spelling', 'pos'))
     table = {}
     for (driver, detail, p), o in sorted(obs.items()):
         table['%s%s:%s' % (driver, detail and '/' + detail, ''.join(map(str, p)))] = repr(o)
